@@ -92,6 +92,7 @@ type Client struct {
 
 	mu        sync.Mutex
 	onUnknown map[string]any // RegisterInfo the script registers the sender of a relayed request with, when the teamserver does not know it
+	rewrite   func(hdr map[string]any) map[string]any // how the script writes the header of that registration (nil: echoes the teamserver's)
 	relayed   int
 	replies   map[string]chan msg
 	seq       int
@@ -160,11 +161,15 @@ func (c *Client) reader() {
 			raw, _ := base64.StdEncoding.DecodeString(b64)
 			c.mu.Lock()
 			c.relayed++
-			info := c.onUnknown
+			info, rewrite := c.onUnknown, c.rewrite
 			c.mu.Unlock()
 			if m["Body"]["Agent"] == nil && info != nil {
+				var hdr any = m["Body"]["AgentHeader"]
+				if h, ok := hdr.(map[string]any); ok && rewrite != nil {
+					hdr = rewrite(h)
+				}
 				c.send(map[string]any{"Head": map[string]any{"Type": "Agent"}, "Body": map[string]any{"Type": "AgentRegister",
-					"AgentHeader": m["Body"]["AgentHeader"], "RegisterInfo": info}})
+					"AgentHeader": hdr, "RegisterInfo": info}})
 			}
 			c.send(map[string]any{"Head": map[string]any{"Type": "Agent"}, "Body": map[string]any{
 				"Type": "AgentResponse", "RandID": rid, "Response": base64.StdEncoding.EncodeToString(append([]byte(Tag), raw...))}})
@@ -192,11 +197,25 @@ func (c *Client) RegisterSession(magic, id uint32, info map[string]any) error {
 	}})
 }
 
+// SendAgentRegister sends an AgentRegister message with exactly this header and RegisterInfo
+// (whatever spelling / JSON type the caller chose for each field).
+func (c *Client) SendAgentRegister(hdr, info map[string]any) error {
+	return c.send(map[string]any{"Head": map[string]any{"Type": "Agent"}, "Body": map[string]any{"Type": "AgentRegister", "AgentHeader": hdr, "RegisterInfo": info}})
+}
+
+// OnUnknownWith is OnUnknown with the header of the registration rewritten by rewrite (it
+// gets the header the teamserver sent: Size, MagicValue, AgentID as strings).
+func (c *Client) OnUnknownWith(info map[string]any, rewrite func(hdr map[string]any) map[string]any) {
+	c.mu.Lock()
+	c.onUnknown, c.rewrite = info, rewrite
+	c.mu.Unlock()
+}
+
 // OnUnknown sets the RegisterInfo the script registers an unknown sender of a relayed
 // request with (nil: it only answers).
 func (c *Client) OnUnknown(info map[string]any) {
 	c.mu.Lock()
-	c.onUnknown = info
+	c.onUnknown, c.rewrite = info, nil
 	c.mu.Unlock()
 }
 
